@@ -22,6 +22,9 @@ def _snap(x):
         return (type(x).__name__, tuple(_snap(v) for v in x))
     if isinstance(x, dict):
         return ("dict", tuple(sorted((k, _snap(v)) for k, v in x.items())))
+    if hasattr(x, "__dict__") and type(x).__module__.startswith("persim"):
+        # a landscape / imager object passed as an argument: everything it holds is part of the observable argument
+        return ("obj", type(x).__name__, tuple(sorted((k, _snap(v)) for k, v in vars(x).items())))
     return ("v", repr(x))
 
 
@@ -150,6 +153,29 @@ def entry_points(rng):
                 lc_approx([A, B], [1.0, -2.0]).values, average_approx([A, B]).values, PersistenceLandscaper(start=0.0, stop=10.0, num_steps=6).fit_transform([a])]
     add("landscape tools and transformer", tools, lambda: (dg(), dg()))
 
+    # landscapes themselves as arguments (shared operands): on a common grid, on different grids, exact ones
+    def mk_grid_landscapes(same):
+        a, b, c = dg(), dg(), dg()
+        g2 = (0.0, 10.0, 11) if same else (1.0, 9.0, 5)
+        return ([PersLandscapeApprox(dgms=[a], start=0.0, stop=10.0, num_steps=11), PersLandscapeApprox(dgms=[b], start=g2[0], stop=g2[1], num_steps=g2[2]),
+                 PersLandscapeApprox(dgms=[c], start=0.0, stop=10.0, num_steps=11)],)
+
+    def grid_tools(ls):
+        return [[s.values for s in snap_pl(ls)], lc_approx(ls, [1.0, -2.0, 0.5]).values, average_approx(ls).values,
+                [s.values for s in snap_pl(ls, start=0.0, stop=10.0, num_steps=11)], lc_approx(ls, [2.0, 1.0, 1.0], start=0.0, stop=10.0, num_steps=11).values, average_approx(ls).values]
+    add("landscape tools on landscapes sharing a grid", grid_tools, lambda: mk_grid_landscapes(True))
+    add("landscape tools on landscapes with different grids", grid_tools, lambda: mk_grid_landscapes(False))
+
+    def grid_ops(ls):
+        A, B = ls[0], ls[2]
+        return [(A + B).values, (A - B).values, (2.0 * A).values, (A * 3.0).values, (A / 2.0).values, (-A).values, A.p_norm(2), B.sup_norm(), (A + A).values, A[0:1]]
+    add("grid landscape operators on shared operands", grid_ops, lambda: mk_grid_landscapes(True))
+
+    def exact_ops(P, Q):
+        return [(P + Q).critical_pairs, (P - Q).critical_pairs, (P + P).critical_pairs, (2.0 * P).critical_pairs, (P / 2.0).critical_pairs, (-Q).critical_pairs, P.p_norm(2), Q.sup_norm(),
+                vectorize(P, start=0.0, stop=10.0, num_steps=7).values, (P + Q).critical_pairs]
+    add("exact landscape operators on shared operands", exact_ops, lambda: (PersLandscapeExact(dgms=[dg()], hom_deg=0), PersLandscapeExact(dgms=[dg()], hom_deg=0)))
+
     def pl(a, b):
         plot_diagrams([a, b], lifetime=True, ax=fresh_ax())
         plot_diagrams(a, ax=fresh_ax())
@@ -247,13 +273,33 @@ def _standin(rep, tier, seed, only_search=False):
             A = np.array([[0, 1, 1, 0, 0], [1, 0, 1, 1, 0], [1, 1, 0, 0, 1], [0, 1, 0, 0, 1], [0, 0, 1, 1, 0]])
             B = np.array([[0, 1, 0, 0], [1, 0, 1, 0], [0, 1, 0, 1], [0, 0, 1, 0]])
             from persim import gromov_hausdorff
-            np.random.seed(11)
-            r1 = gromov_hausdorff(A, B)
-            np.random.seed(11)
-            r2 = gromov_hausdorff(A, B)
-            evals += 1
-            if r1 != r2:
-                rep.violation("gromov_hausdorff is not reproducible under a fixed NumPy seed", "repeatability:mgh-seed", {"input": {"A": A.tolist(), "B": B.tolist()}})
+            import random as _stdlib_random
+
+            def rgraph(nv):
+                # random tree plus a few extra edges: irregular shapes, where the greedy upper bound depends on the draws
+                M = np.zeros((nv, nv), dtype=int)
+                for v in range(1, nv):
+                    u = rng.randrange(v)
+                    M[u, v] = M[v, u] = 1
+                for _e in range(rng.randint(0, 2)):
+                    u, v = rng.randrange(nv), rng.randrange(nv)
+                    if u != v:
+                        M[u, v] = M[v, u] = 1
+                return M
+            pairs = [(A, B)] + [(rgraph(rng.randint(3, 7)), rgraph(rng.randint(3, 7))) for _ in range(6 if tier == "quick" else 40)]
+            for GA, GB in pairs:
+                outs = []
+                for rep_i in range(3):
+                    # only the NumPy seed is fixed: the state of every other generator differs from call to call
+                    _stdlib_random.seed(1000 * rnd + rep_i)
+                    np.random.seed(11)
+                    outs.append(gromov_hausdorff(GA, GB))
+                evals += 1
+                if any(o != outs[0] for o in outs):
+                    rep.violation("gromov_hausdorff is not reproducible under a fixed NumPy seed: %s on the same pair of graphs" % outs, "repeatability:mgh-seed", {"input": {"A": GA.tolist(), "B": GB.tolist(), "numpy_seed": 11}, "observed": [list(map(float, o)) for o in outs]})
+                    if only_search:
+                        return
+                    break
         # the deprecated PersImage caches `specs` from the first diagram it sees: results depend on the history of the object
         from persim import PersImage
         d1, d2 = np.array([[0.0, 1.0], [0.5, 2.0]]), np.array([[0.0, 6.0], [1.0, 9.0]])
@@ -273,7 +319,7 @@ def _standin(rep, tier, seed, only_search=False):
 
 def _static_scan(rep):
     """no module-level state is written and the global NumPy generator is the only randomness source"""
-    bad, rng_sites = [], []
+    bad, rng_sites, other_rng = [], [], []
     for root, _d, files in os.walk(os.path.join(REPO, "persim")):
         for f in files:
             if not f.endswith(".py"):
@@ -285,13 +331,25 @@ def _static_scan(rep):
                     bad.append("%s:%d %s" % (os.path.relpath(p, REPO), n.lineno, type(n).__name__))
                 if isinstance(n, ast.Attribute) and ast.unparse(n).startswith(("np.random", "numpy.random", "random.")):
                     rng_sites.append("%s:%d %s" % (os.path.relpath(p, REPO), n.lineno, ast.unparse(n)))
-                if isinstance(n, ast.Import) and any(a.name == "random" for a in n.names):
-                    rng_sites.append("%s:%d import random" % (os.path.relpath(p, REPO), n.lineno))
+                    txt = ast.unparse(n)
+                    # generators with a state of their own are not governed by np.random.seed
+                    if txt.startswith("random.") or txt.split(".")[-1] in ("default_rng", "Generator", "RandomState", "SeedSequence", "PCG64", "MT19937", "Philox", "SFC64"):
+                        other_rng.append("%s:%d %s" % (os.path.relpath(p, REPO), n.lineno, txt))
+                if isinstance(n, ast.Import) and any(a.name.split(".")[0] in ("random", "secrets", "uuid") for a in n.names):
+                    rng_sites.append("%s:%d import %s" % (os.path.relpath(p, REPO), n.lineno, ",".join(a.name for a in n.names)))
+                    other_rng.append("%s:%d import %s" % (os.path.relpath(p, REPO), n.lineno, ",".join(a.name for a in n.names)))
+                if isinstance(n, ast.ImportFrom) and (n.module or "").split(".")[0] in ("random", "secrets", "uuid"):
+                    other_rng.append("%s:%d from %s import ..." % (os.path.relpath(p, REPO), n.lineno, n.module))
+                if isinstance(n, ast.Attribute) and ast.unparse(n) in ("os.urandom", "os.getrandom"):
+                    other_rng.append("%s:%d %s" % (os.path.relpath(p, REPO), n.lineno, ast.unparse(n)))
     rep.add_function("static:persim/*", "persim/", 1)
     rep.add_obligation("static:no_global_or_nonlocal_state_written", "discharged" if not bad else "refuted", backend="ast-scan", cls="P", func="static:persim/*", detail="; ".join(bad) or None)
     only_gh = all(s.startswith("persim/gromov_hausdorff.py") for s in rng_sites)
     rep.add_obligation("static:randomness_only_from_numpy_global_generator_in_mgh_upper_bound", "discharged" if only_gh else "refuted", backend="ast-scan", cls="P", func="static:persim/*",
                        detail="; ".join(rng_sites))
+    rep.add_obligation("static:no_generator_other_than_the_numpy_global_one", "discharged" if not other_rng else "refuted", backend="ast-scan", cls="P", func="static:persim/*", detail="; ".join(other_rng) or None)
+    if other_rng and not any(v["signature"] == "repeatability:mgh-seed" for v in rep.violations):
+        rep.violation("random numbers are drawn from a generator that np.random.seed does not govern: %s" % other_rng[:3], "purity:rng-not-numpy-global", {"sites": other_rng}, failing_input_found=False)
     if bad:
         rep.violation("module-level state is written through global/nonlocal: %s" % bad[:3], "purity:global-state", {"sites": bad}, failing_input_found=False)
     if not only_gh:
@@ -355,11 +413,11 @@ def run(rep, tier, seed):
             f["obligations"] += 1
             f["discharged"] += int(o["status"] == "discharged")
     rep.note("%d functional obligations of the re-verified contracts are accounted under their own properties, not here" % dropped)
+    _standin(rep, tier, seed)
     _static_scan(rep)
     rep.assume("A5 NumPy view/copy classification (basic slices, .T are views sharing the buffer; np.array, np.copy, astype(copy=True), mask/fancy indexing, arithmetic are fresh buffers; np.asarray aliases an ndarray)",
                "ownership tracking: every in-place write executed on any path of a function under contract targets a buffer not reachable from a parameter; functions outside the contracts are covered by the byte-level stand-in only",
                "D24 copy.deepcopy")
-    _standin(rep, tier, seed)
 
 
 def replay(doc):
